@@ -298,6 +298,9 @@ class PhasePredictor(QTable):
                     coeffs += f.readline().translate(d2e).split()
 
                 coeffs = np.array(coeffs, dtype=np.float64)
+                if len(coeffs) < 2:
+                    # Room for the rotation-frequency term added below.
+                    coeffs = np.append(coeffs, [0.0] * (2 - len(coeffs)))
                 coeffs[0] += r_sign * float("0." + r_frac)
                 coeffs[1] += float(f0) * 60
 
